@@ -2,10 +2,10 @@
 """Copies the validated seeded changes from the sub-agents' output area into /verif/seeded/<id>/ and writes meta.json
 (which property, what the change needs in order to manifest, what was run to confirm it, which checks detect it)."""
 import json, os, shutil, sys, glob
-SRC = "/tmp/seed/out"
+SRCS = ["/tmp/seed/out", "/tmp/seed/out2"]
 DST = "/verif/seeded"
 os.makedirs(DST, exist_ok=True)
-for d in sorted(glob.glob(SRC + "/C??/[ab]")):
+for d in sorted(sum([glob.glob(S + "/C??/[abcd]") for S in SRCS], [])):
     prop, x = d.split("/")[-2:]
     rp = os.path.join(d, "result.json")
     if not os.path.exists(rp) or not os.path.exists(os.path.join(d, "patch.diff")):
@@ -34,9 +34,12 @@ for d in sorted(glob.glob(SRC + "/C??/[ab]")):
     shutil.copy(os.path.join(d, "demo_cmd.txt"), out)
     am = json.load(open(os.path.join(d, "meta.json")))
     det = {}
+    dh = []
     for h in hist:
         for p, c in h.get("checks", {}).items():
             det[p] = {"tier": h.get("tier"), "exit": c["rc"], "seconds": c["s"], "violations": c["violations"][:4]}
+        if h.get("checks"):
+            dh.append({"run": len(dh) + 1, "detected_by": sorted(h.get("detected_by", []))})
     meta = {
         "id": sid,
         "property": am.get("property", prop),
@@ -52,6 +55,7 @@ for d in sorted(glob.glob(SRC + "/C??/[ab]")):
             "suite_patched": [{"pkg": s["pkg"], "runs": len(s["runs"]), "passed": s["passed"]} for s in valid.get("suite_patched", [])],
         },
         "checks_run_against_it": det,
+        "detection_history": dh,
         "detected_by": sorted(p for p, c in det.items() if c["exit"] == 1 and c["violations"]),
     }
     json.dump(meta, open(os.path.join(out, "meta.json"), "w"), indent=1)
